@@ -446,3 +446,15 @@ def run(repo: Repo, rep: Report, tier: str) -> None:
                       "copy_count_from_input and not isinstance(<inlined output value>, int)" if ok10 else
                       f"copy_count_from_input={tcc[:60]} although output_value={tov[:60]} can be an inlined literal: the decider then copies a signal that is not on its input and outputs nothing", m10r.loc(call10))
     rep.floor("C01-R10", "decider placements with an inlinable output value", n10r, 2)
+
+    # ---------------- R11 --------------------------------------------------------------
+    rep.rule("C01-R11", "same-type addition is a wire merge, which adds what is on the wires: a constant operand of a merge is exported (record_export) so that it is always placed "
+             "(an anonymous constant that is only `consumed` is treated as inlinable, and a merge cannot inline it)")
+    an11 = repo.func("SignalAnalyzer.analyze")
+    c11r = _c10r(an11)
+    from .util import cguards as _g11
+    ex11 = [k for k in calls_in(an11.node, "record_export") if c11r.text(k.args[0]) in ("ELEM(ELEM(ir_operations).sources)", "ELEM(ir_operations).sources")
+            and any(pol and g == "isinstance(ELEM(ir_operations), IRWireMerge)" for g, pol in _g11(an11, k))]
+    rep.check(bool(ex11), "C01-R11", "constants taking part in a wire merge are always placed",
+              "sources of IRWireMerge are exported" if ex11 else
+              "IRWireMerge.sources are only recorded as consumers: `Signal s = inp + (5 | \"signal-I\");` loses the 5, s equals inp", an11.loc())
